@@ -862,6 +862,9 @@ func handleMessage(peer *Peer, m protocol.Message) error {
 		if m.Length > maxRequestLength {
 			return reject(peer, m.Index, m.Begin, m.Length)
 		}
+		if m.Index >= uint32(numPieces(peer)) {
+			return ErrRange
+		}
 		if len(peer.requested) >= reqQ {
 			// head drop
 			r := peer.requested[0]
